@@ -114,6 +114,12 @@ fn world_ops(out: &mut Vec<String>, scen: &str) {
     for r in 1..=2i64 {
         out.push(format!("row id={} r={} t={}", r * 10 + 3, r, t(12) + 10 + r));
     }
+    // private rows that belong to no room, referencing and referenced by rows of rooms
+    out.push(format!("row id=41 r=- t={}", t(12) + 20));
+    out.push(format!("row id=42 r=- t={}", t(12) + 21));
+    out.push(format!("ref src=41 dst=11 t={}", t(12) + 30));
+    out.push(format!("ref src=41 dst=42 t={}", t(12) + 31));
+    out.push(format!("ref src=12 dst=41 t={}", t(12) + 32));
     out.push(format!("ref src=11 dst=12 t={}", t(13)));
     out.push(format!("ref src=11 dst=21 t={}", t(13) + 1));
     out.push(format!("ref src=21 dst=22 t={}", t(13) + 2));
@@ -146,10 +152,11 @@ fn queries(out: &mut Vec<String>, c: u64, r: u64) {
             }
         }
     }
-    for ids in ["11,12", "21,22", "31", "11,21,31,99", "99", ""] {
+    // 41,42: room-less private rows; 900+r: the definition row of room r; 990: the own sys.Peer row (all room-less)
+    for ids in ["11,12", "21,22", "31", "11,21,31,99", "99", "", "41,42", "11,41", "901,902,903,900", "990", "12,42,903,990"] {
         out.push(format!("q c={} kind=Nodes r={} ids={}", c, r, ids));
     }
-    for srcs in ["11:0", "21:0", "31:0", "11:0,21:0,31:0,99:0", "12:0,22:0", "11:99999999999999", ""] {
+    for srcs in ["11:0", "21:0", "31:0", "11:0,21:0,31:0,99:0", "12:0,22:0", "11:99999999999999", "", "41:0", "41:0,12:0", "901:0,990:0"] {
         out.push(format!("q c={} kind=Edges r={} srcs={}", c, r, srcs));
     }
 }
@@ -256,6 +263,14 @@ fn gen08(seed: u64, n: usize, out: &str) {
                     let en = if g.chance(2, 3) { 1 } else { 0 };
                     writeln!(w, "member r={} k={} role={} en={} t={}", r, k, role, en, tick(&mut g, &mut t)).unwrap();
                 }
+                1 if g.chance(1, 6) => {
+                    made[7] += 1;
+                    if made[7] < 9 {
+                        let idn = 70 + made[7];
+                        rows.push(idn);
+                        writeln!(w, "row id={} r=- t={}", idn, tick(&mut g, &mut t)).unwrap();
+                    }
+                }
                 1 => {
                     let r = 1 + g.below(nrooms as usize) as u64;
                     made[r as usize] += 1;
@@ -305,7 +320,7 @@ fn gen08(seed: u64, n: usize, out: &str) {
                     let r = if g.chance(1, 8) { 9 } else { 1 + g.below(nrooms as usize) as u64 };
                     let any_row = |g: &mut Gen| -> u64 {
                         if g.chance(1, 6) {
-                            99
+                            *g.pick(&[99u64, 71, 72, 900, 901, 902, 990])
                         } else {
                             (1 + g.below(nrooms as usize) as u64) * 10 + 1 + g.below(3) as u64
                         }
